@@ -340,7 +340,34 @@ func (e *Engine) builtin(fr *frame, b *ssa.Builtin, args []Value, in ssa.Value) 
 		e.elemOf[&a[0]] = elemRef{a, 0}
 		return &a[0]
 	case "min", "max":
-		unsupported("min/max")
+		// integer operands only (floats and strings: unsupported, never guessed)
+		bt, ok := in.Type().Underlying().(*types.Basic)
+		if !ok || bt.Info()&types.IsInteger == 0 {
+			unsupported("min/max of %s", in.Type())
+		}
+		unsigned := bt.Info()&types.IsUnsigned != 0
+		r, ok := args[0].(Term)
+		if !ok {
+			unsupported("min/max operand %T", args[0])
+		}
+		for _, a := range args[1:] {
+			x, ok := a.(Term)
+			if !ok {
+				unsupported("min/max operand %T", a)
+			}
+			var less Term // x < r
+			if unsigned {
+				less = Ult(x, r)
+			} else {
+				less = Slt(x, r)
+			}
+			if b.Name() == "min" {
+				r = Ite(less, x, r)
+			} else {
+				r = Ite(less, r, x)
+			}
+		}
+		return r
 	}
 	unsupported("builtin %s(%T)", b.Name(), args[0])
 	return nil
